@@ -87,18 +87,32 @@ PROPS["C11"] = {
     "rule": "cases are (curve, operation group, points, scalars); tiny worlds: complete point lists / scalar ranges by odometer; W64: alphabet products; all cases non-trivial; distinct by 64-bit hash; transitions = individual routine results compared with the reference.",
     "assumptions": ["reference group law in ref_ec2.h", "calls inside RLC_TRY", "DRBG/RNG re-seeded identically before every randomised routine"],
     "jobs": [
-        {"name": "ep2-w8", "world": "W8", "src": "props/C11_ep2.c", "share": 0.6, "share_thorough": 0.3},
-        {"name": "ep2-w64", "world": "W64", "src": "props/C11_ep2.c", "share_thorough": 0.2},
-        {"name": "ep2-w8-jacob", "world": "W8-jacob", "src": "props/C11_ep2.c", "tiers": ("thorough",), "share": 0.08},
-        {"name": "ep2-w8-basic", "world": "W8-basic", "src": "props/C11_ep2.c", "tiers": ("thorough",), "share": 0.08},
-        {"name": "ep2-w64-381", "world": "W64-381", "src": "props/C11_ep2.c", "tiers": ("thorough",), "share": 0.06},
-        {"name": "ep2-w64-446", "world": "W64-446", "src": "props/C11_ep2.c", "tiers": ("thorough",), "share": 0.05},
-        {"name": "ep2-w64-446q", "world": "W64-446q", "src": "props/C11_ep2.c", "tiers": ("thorough",), "share": 0.05},
-        {"name": "fam-g2-w64-315", "world": "W64-315", "src": "props/C04_fam.c", "tiers": ("thorough",), "args": ["--only", "c11-"], "share": 0.04},
-        {"name": "fam-g2-w64-330", "world": "W64-330", "src": "props/C04_fam.c", "tiers": ("thorough",), "args": ["--only", "c11-"], "share": 0.04},
-        {"name": "fam-g2-w64-638", "world": "W64-638", "src": "props/C04_fam.c", "tiers": ("thorough",), "args": ["--only", "c11-"], "share": 0.04},
-        {"name": "fam-g2-w64-575q", "world": "W64-575q", "src": "props/C04_fam.c", "tiers": ("thorough",), "args": ["--only", "c11-"], "share": 0.04},
-        {"name": "fam-g2-w64-544", "world": "W64-544", "src": "props/C04_fam.c", "tiers": ("thorough",), "args": ["--only", "c11-"], "share": 0.03},
+        {"name": "ep2-w8", "world": "W8", "src": "props/C11_ep2.c", "share": 0.6, "share_thorough": 0.18},
+        {"name": "ep2-w64", "world": "W64", "src": "props/C11_ep2.c", "share_thorough": 0.10},
+        {"name": "ep2-w8-jacob", "world": "W8-jacob", "src": "props/C11_ep2.c", "tiers": ("thorough",), "share": 0.06},
+        {"name": "ep2-w8-basic", "world": "W8-basic", "src": "props/C11_ep2.c", "tiers": ("thorough",), "share": 0.06},
+        {"name": "ep2-w64-381", "world": "W64-381", "src": "props/C11_ep2.c", "tiers": ("thorough",), "share": 0.05},
+        {"name": "ep2-w64-446", "world": "W64-446", "src": "props/C11_ep2.c", "tiers": ("thorough",), "share": 0.04},
+        {"name": "ep2-w64-446q", "world": "W64-446q", "src": "props/C11_ep2.c", "tiers": ("thorough",), "share": 0.04},
+        {"name": "fam-g2-w64-315", "world": "W64-315", "src": "props/C04_fam.c", "tiers": ("thorough",), "args": ["--only", "c11-"], "share": 0.035},
+        {"name": "fam-g2-w64-330", "world": "W64-330", "src": "props/C04_fam.c", "tiers": ("thorough",), "args": ["--only", "c11-"], "share": 0.035},
+        {"name": "fam-g2-w64-638", "world": "W64-638", "src": "props/C04_fam.c", "tiers": ("thorough",), "args": ["--only", "c11-"], "share": 0.035},
+        {"name": "fam-g2-w64-575q", "world": "W64-575q", "src": "props/C04_fam.c", "tiers": ("thorough",), "args": ["--only", "c11-"], "share": 0.035},
+        {"name": "fam-g2-w64-544", "world": "W64-544", "src": "props/C04_fam.c", "tiers": ("thorough",), "args": ["--only", "c11-"], "share": 0.025},
+        {"name": "fam-g2-w64-158", "world": "W64-158", "src": "props/C04_fam.c", "tiers": ("thorough",), "args": ["--only", "c11-"], "share": 0.02},
+        {"name": "fam-g2-w64-254", "world": "W64-254", "src": "props/C04_fam.c", "tiers": ("thorough",), "args": ["--only", "c11-"], "share": 0.02},
+        {"name": "fam-g2-w64-317", "world": "W64-317", "src": "props/C04_fam.c", "tiers": ("thorough",), "args": ["--only", "c11-"], "share": 0.02},
+        {"name": "fam-g2-w64-354", "world": "W64-354", "src": "props/C04_fam.c", "tiers": ("thorough",), "args": ["--only", "c11-"], "share": 0.02},
+        {"name": "fam-g2-w64-377", "world": "W64-377", "src": "props/C04_fam.c", "tiers": ("thorough",), "args": ["--only", "c11-"], "share": 0.02},
+        {"name": "fam-g2-w64-382", "world": "W64-382", "src": "props/C04_fam.c", "tiers": ("thorough",), "args": ["--only", "c11-"], "share": 0.02},
+        {"name": "fam-g2-w64-383", "world": "W64-383", "src": "props/C04_fam.c", "tiers": ("thorough",), "args": ["--only", "c11-"], "share": 0.02},
+        {"name": "fam-g2-w64-455", "world": "W64-455", "src": "props/C04_fam.c", "tiers": ("thorough",), "args": ["--only", "c11-"], "share": 0.02},
+        {"name": "fam-g2-w64-508", "world": "W64-508", "src": "props/C04_fam.c", "tiers": ("thorough",), "args": ["--only", "c11-"], "share": 0.02},
+        {"name": "fam-g2-w64-509", "world": "W64-509", "src": "props/C04_fam.c", "tiers": ("thorough",), "args": ["--only", "c11-"], "share": 0.02},
+        {"name": "fam-g2-w64-510", "world": "W64-510", "src": "props/C04_fam.c", "tiers": ("thorough",), "args": ["--only", "c11-"], "share": 0.02},
+        {"name": "fam-g2-w64-765", "world": "W64-765", "src": "props/C04_fam.c", "tiers": ("thorough",), "args": ["--only", "c11-"], "share": 0.02},
+        {"name": "fam-g2-w64-766", "world": "W64-766", "src": "props/C04_fam.c", "tiers": ("thorough",), "args": ["--only", "c11-"], "share": 0.02},
+        {"name": "fam-g2-w64-768", "world": "W64-768", "src": "props/C04_fam.c", "tiers": ("thorough",), "args": ["--only", "c11-"], "share": 0.02},
     ],
 }
 
@@ -119,6 +133,20 @@ PROPS["C12"] = {
         {"name": "fam-pc-w64-638", "world": "W64-638", "src": "props/C04_fam.c", "tiers": ("thorough",), "args": ["--only", "c12-"]},
         {"name": "fam-pc-w64-575q", "world": "W64-575q", "src": "props/C04_fam.c", "tiers": ("thorough",), "args": ["--only", "c12-"]},
         {"name": "fam-pc-w64-544", "world": "W64-544", "src": "props/C04_fam.c", "tiers": ("thorough",), "args": ["--only", "c12-"]},
+        {"name": "fam-pc-w64-158", "world": "W64-158", "src": "props/C04_fam.c", "tiers": ("thorough",), "args": ["--only", "c12-"]},
+        {"name": "fam-pc-w64-254", "world": "W64-254", "src": "props/C04_fam.c", "tiers": ("thorough",), "args": ["--only", "c12-"]},
+        {"name": "fam-pc-w64-317", "world": "W64-317", "src": "props/C04_fam.c", "tiers": ("thorough",), "args": ["--only", "c12-"]},
+        {"name": "fam-pc-w64-354", "world": "W64-354", "src": "props/C04_fam.c", "tiers": ("thorough",), "args": ["--only", "c12-"]},
+        {"name": "fam-pc-w64-377", "world": "W64-377", "src": "props/C04_fam.c", "tiers": ("thorough",), "args": ["--only", "c12-"]},
+        {"name": "fam-pc-w64-382", "world": "W64-382", "src": "props/C04_fam.c", "tiers": ("thorough",), "args": ["--only", "c12-"]},
+        {"name": "fam-pc-w64-383", "world": "W64-383", "src": "props/C04_fam.c", "tiers": ("thorough",), "args": ["--only", "c12-"]},
+        {"name": "fam-pc-w64-455", "world": "W64-455", "src": "props/C04_fam.c", "tiers": ("thorough",), "args": ["--only", "c12-"]},
+        {"name": "fam-pc-w64-508", "world": "W64-508", "src": "props/C04_fam.c", "tiers": ("thorough",), "args": ["--only", "c12-"]},
+        {"name": "fam-pc-w64-509", "world": "W64-509", "src": "props/C04_fam.c", "tiers": ("thorough",), "args": ["--only", "c12-"]},
+        {"name": "fam-pc-w64-510", "world": "W64-510", "src": "props/C04_fam.c", "tiers": ("thorough",), "args": ["--only", "c12-"]},
+        {"name": "fam-pc-w64-765", "world": "W64-765", "src": "props/C04_fam.c", "tiers": ("thorough",), "args": ["--only", "c12-"]},
+        {"name": "fam-pc-w64-766", "world": "W64-766", "src": "props/C04_fam.c", "tiers": ("thorough",), "args": ["--only", "c12-"]},
+        {"name": "fam-pc-w64-768", "world": "W64-768", "src": "props/C04_fam.c", "tiers": ("thorough",), "args": ["--only", "c12-"]},
     ],
 }
 
@@ -139,20 +167,20 @@ PROPS["C04"] = {
         {"name": "fam-w64-638", "world": "W64-638", "src": "props/C04_fam.c", "tiers": ("thorough",), "args": ["--only", "c04-"]},
         {"name": "fam-w64-575q", "world": "W64-575q", "src": "props/C04_fam.c", "tiers": ("thorough",), "args": ["--only", "c04-"]},
         {"name": "fam-w64-544", "world": "W64-544", "src": "props/C04_fam.c", "tiers": ("thorough",), "args": ["--only", "c04-"]},
-        {"name": "probe-158", "world": "W64-158", "src": "props/C04_fam.c", "tiers": ("never",)},  # PROBE
-        {"name": "probe-254", "world": "W64-254", "src": "props/C04_fam.c", "tiers": ("never",)},  # PROBE
-        {"name": "probe-317", "world": "W64-317", "src": "props/C04_fam.c", "tiers": ("never",)},  # PROBE
-        {"name": "probe-354", "world": "W64-354", "src": "props/C04_fam.c", "tiers": ("never",)},  # PROBE
-        {"name": "probe-377", "world": "W64-377", "src": "props/C04_fam.c", "tiers": ("never",)},  # PROBE
-        {"name": "probe-382", "world": "W64-382", "src": "props/C04_fam.c", "tiers": ("never",)},  # PROBE
-        {"name": "probe-383", "world": "W64-383", "src": "props/C04_fam.c", "tiers": ("never",)},  # PROBE
-        {"name": "probe-455", "world": "W64-455", "src": "props/C04_fam.c", "tiers": ("never",)},  # PROBE
-        {"name": "probe-508", "world": "W64-508", "src": "props/C04_fam.c", "tiers": ("never",)},  # PROBE
-        {"name": "probe-509", "world": "W64-509", "src": "props/C04_fam.c", "tiers": ("never",)},  # PROBE
-        {"name": "probe-510", "world": "W64-510", "src": "props/C04_fam.c", "tiers": ("never",)},  # PROBE
-        {"name": "probe-765", "world": "W64-765", "src": "props/C04_fam.c", "tiers": ("never",)},  # PROBE
-        {"name": "probe-766", "world": "W64-766", "src": "props/C04_fam.c", "tiers": ("never",)},  # PROBE
-        {"name": "probe-768", "world": "W64-768", "src": "props/C04_fam.c", "tiers": ("never",)},  # PROBE
+        {"name": "fam-w64-158", "world": "W64-158", "src": "props/C04_fam.c", "tiers": ("thorough",), "args": ["--only", "c04-"]},
+        {"name": "fam-w64-254", "world": "W64-254", "src": "props/C04_fam.c", "tiers": ("thorough",), "args": ["--only", "c04-"]},
+        {"name": "fam-w64-317", "world": "W64-317", "src": "props/C04_fam.c", "tiers": ("thorough",), "args": ["--only", "c04-"]},
+        {"name": "fam-w64-354", "world": "W64-354", "src": "props/C04_fam.c", "tiers": ("thorough",), "args": ["--only", "c04-"]},
+        {"name": "fam-w64-377", "world": "W64-377", "src": "props/C04_fam.c", "tiers": ("thorough",), "args": ["--only", "c04-"]},
+        {"name": "fam-w64-382", "world": "W64-382", "src": "props/C04_fam.c", "tiers": ("thorough",), "args": ["--only", "c04-"]},
+        {"name": "fam-w64-383", "world": "W64-383", "src": "props/C04_fam.c", "tiers": ("thorough",), "args": ["--only", "c04-"]},
+        {"name": "fam-w64-455", "world": "W64-455", "src": "props/C04_fam.c", "tiers": ("thorough",), "args": ["--only", "c04-"]},
+        {"name": "fam-w64-508", "world": "W64-508", "src": "props/C04_fam.c", "tiers": ("thorough",), "args": ["--only", "c04-"]},
+        {"name": "fam-w64-509", "world": "W64-509", "src": "props/C04_fam.c", "tiers": ("thorough",), "args": ["--only", "c04-"]},
+        {"name": "fam-w64-510", "world": "W64-510", "src": "props/C04_fam.c", "tiers": ("thorough",), "args": ["--only", "c04-"]},
+        {"name": "fam-w64-765", "world": "W64-765", "src": "props/C04_fam.c", "tiers": ("thorough",), "args": ["--only", "c04-"]},
+        {"name": "fam-w64-766", "world": "W64-766", "src": "props/C04_fam.c", "tiers": ("thorough",), "args": ["--only", "c04-"]},
+        {"name": "fam-w64-768", "world": "W64-768", "src": "props/C04_fam.c", "tiers": ("thorough",), "args": ["--only", "c04-"]},
     ],
 }
 
